@@ -73,6 +73,14 @@ def access_path(f, idx, ctx=None, _depth=0):
                         break
             return ('param:%s' % n['name'],)
         if sk in ('local', 'static_local', 'binding'):
+            if sk == 'local':
+                # a reference local bound to a member / parameter / global (`auto &sync = *synchronization_data_;`) is an alias: a
+                # reference is never re-bound, so its path is the path of what it was bound to
+                init = _ref_alias_init(f, n.get('id'))
+                if init is not None:
+                    ap = access_path(f, init, ctx, _depth + 1)
+                    if ap[0] == 'this' or ap[0].startswith(('param:', 'global:')):
+                        return ap
             return ('local:%s:%s' % (n.get('id'), n['name']),)
         if sk in ('global', 'tls'):
             return ('global:%s' % n.get('qn', n['name']),)
@@ -98,6 +106,25 @@ def access_path(f, idx, ctx=None, _depth=0):
     if k == 'construct' and n.get('copymove') and len(n.get('args', [])) == 1:
         return access_path(f, n['args'][0], ctx, _depth + 1)
     return ('?',)
+
+
+_ALIAS_CACHE = {}
+
+
+def _ref_alias_init(f, vid):
+    """initialiser of a local declared with a reference type (lvalue reference, not a loop variable's hidden iterator), else None"""
+    tab = _ALIAS_CACHE.get(id(f))
+    if tab is None or tab[0] is not f:
+        d_ = {}
+        for m in f.nodes:
+            if m['k'] == 'declstmt':
+                for d in m['decls']:
+                    t = (d.get('t') or '').rstrip()
+                    if t.endswith('&') and not t.endswith('&&') and d.get('init') is not None and d['init'] >= 0:
+                        d_[d['id']] = d['init']
+        tab = (f, d_)
+        _ALIAS_CACHE[id(f)] = tab
+    return tab[1].get(vid)
 
 
 def access_path_this(ctx):
